@@ -332,13 +332,14 @@ class Facts:
     """Runs the must-facts analysis on a CFG."""
 
     def __init__(self, cfg: CFG, writes_of=None, start: Node = None,
-                 recv_writes=None):
+                 recv_writes=None, arg_mutated=None):
         """writes_of(call_node) -> set of self-attribute names the (non
         inlined) callee may assign on the *same* receiver, or None if unknown
         (then every self.* atom is killed)."""
         self.cfg = cfg
         self.writes_of = writes_of
         self.recv_writes = recv_writes
+        self.arg_mutated = arg_mutated
         self.IN = dataflow.forward(cfg, frozenset(), self._transfer,
                                    lambda a, b: a & b, start=start)
 
@@ -539,11 +540,14 @@ class Facts:
                         under.add(rp)
                         if meth in _MUTATORS:
                             written.add(rp)
-        for a in list(e.args) + [k.value for k in e.keywords]:
+        for i, a in enumerate(list(e.args) + [k.value for k in e.keywords]):
             if isinstance(a, ast.Starred):
                 a = a.value
             ap = path_of(a, fr)
             if ap is not None and ap != 'self':
+                if self.arg_mutated is not None and i < len(e.args) and \
+                        self.arg_mutated(n, i) is False:
+                    continue
                 under.add(ap)
         out = self._kill(st, written, under)
         return {None: out, 'exc': out}
